@@ -106,8 +106,8 @@ class C19(Prop):
         "refusals. oracle: requested delay <= delta, any k+1 consecutive releases span > (k-1)*delta, release >= ask. non-trivial = at least one "
         "call was delayed and one passed immediately; distinct = (delta, gap sequence) hash"
     )
-    quick_runs = 4000
-    thorough_runs = 100000
+    quick_runs = 30000
+    thorough_runs = 500000
 
     def families(self, tier):
         return [("direct-sync", 4), ("direct-async", 2), ("session", 2), ("exhaustive-small", 1), ("overshoot", 1), ("ctor", 1)]
